@@ -381,7 +381,7 @@ Definition audit_table : list (string * string * nat * string * list string) := 
   ("x/layer2.ApplyJoinDappProposalHandler.VoteEnactment", "assert", 1%nat, "proposal content assertion inside its own handler: the router dispatches on ProposalType() of the same content, so the dynamic type matches", ["1aeda5aee290a23d"]);
   ("x/layer2.ApplyJoinDappProposalHandler.VotePeriod", "assert", 1%nat, "proposal content assertion inside its own handler: the router dispatches on ProposalType() of the same content, so the dynamic type matches", ["d5253d9fda1d8336"]);
   ("x/layer2.ApplyUpsertDappProposalHandler.AllowedAddresses", "assert", 1%nat, "proposal content assertion inside its own handler: the router dispatches on ProposalType() of the same content, so the dynamic type matches", ["ce345ff6f52e7bab"]);
-  ("x/layer2.ApplyUpsertDappProposalHandler.Apply", "assert", 1%nat, "proposal content assertion inside its own handler: the router dispatches on ProposalType() of the same content, so the dynamic type matches", ["8fe010793571fe73"]);
+  ("x/layer2.ApplyUpsertDappProposalHandler.Apply", "assert", 1%nat, "proposal content assertion inside its own handler: the router dispatches on ProposalType() of the same content, so the dynamic type matches", ["2ec483084d777618"]);
   ("x/layer2.ApplyUpsertDappProposalHandler.IsAllowedAddress", "assert", 1%nat, "proposal content assertion inside its own handler: the router dispatches on ProposalType() of the same content, so the dynamic type matches", ["32ec81c3bb975573"]);
   ("x/layer2.ApplyUpsertDappProposalHandler.Quorum", "assert", 1%nat, "proposal content assertion inside its own handler: the router dispatches on ProposalType() of the same content, so the dynamic type matches", ["651433d0487d5597"]);
   ("x/layer2.ApplyUpsertDappProposalHandler.VoteEnactment", "assert", 1%nat, "proposal content assertion inside its own handler: the router dispatches on ProposalType() of the same content, so the dynamic type matches", ["5c4d8dcb58394bd1"]);
